@@ -195,6 +195,7 @@ def run_history(w, t, hist_log):
     a.tape = b.tape = t
     n = 1 + t.weighted([4, 3, 1], "n history")
     unfinished = 0
+    restore_src = []
     for i in range(n):
         kind = H_KINDS[t.weighted([3, 2, 2, 2, 2, 2, 2], "history kind")]
         junk_abandon = kind == "junk" and t.choose(2, "junk with abandon handlers") == 1
@@ -203,7 +204,16 @@ def run_history(w, t, hist_log):
         size = [3 * max(w.cfg.eff_seg, 1) + 1, 0, 1, 7 * max(w.cfg.eff_seg, 1), max(w.cfg.eff_seg, 1)][t.choose(5, "history size")]
         size = min(size, 4000)
         data = bytes((7 * j + 13 * i + 1) & 0xFF for j in range(size))
-        w.vfs_a.h_put(f"src/h{i}.bin", data)
+        src_name = f"src/h{i}.bin"
+        # one history transaction in five sends T's own source path while it holds OTHER content of the same size (the
+        # producing application rewrites a fixed-size file between transfers, behind the filestore object's back)
+        same_path = not w.cfg.metadata_only and t.choose(5, "history sends T's source path") == 4
+        if same_path:
+            data = bytes((x ^ 0xA5) for x in w.src_bytes)
+            size = len(data)
+            src_name = w.src_path
+            restore_src.append(True)
+        w.vfs_a.h_put(src_name, data)
         hist_log.append(f"{kind}/{mode.name[:3]}/{size}")
         lk = LinkCfg(("drop", "dup", "delay"), [(0, 1), (1, 6), (1, 3)][t.choose(3, "history fault rate")], None)
         a.lk = b.lk = lk
@@ -215,7 +225,18 @@ def run_history(w, t, hist_log):
                     ent.fh.set_handler(cc, FaultHandlerCode.ABANDON_TRANSACTION)
         # earlier transactions carry message lists (originating id, proxy messages) that T does not
         hm, _ = build_msgs(t.weighted([3, 1, 2, 1, 1, 1, 1], "history msgs"))
-        req = PutRequest(b.eid, Path(f"src/h{i}.bin"), Path(f"dst/h{i}.bin"), mode, closure, msgs_to_user=hm)
+        # (m2) Metadata options: fault handler overrides a receiver might (wrongly) take into its entity-wide table
+        ovr = None
+        osel = t.choose(5, "history fault handler override")
+        if osel:
+            from spacepackets.cfdp.tlv import FaultHandlerOverrideTlv
+
+            ovr = [FaultHandlerOverrideTlv(
+                [ConditionCode.FILE_CHECKSUM_FAILURE, ConditionCode.POSITIVE_ACK_LIMIT_REACHED, ConditionCode.NAK_LIMIT_REACHED,
+                 ConditionCode.CHECK_LIMIT_REACHED][osel - 1],
+                [FaultHandlerCode.NOTICE_OF_CANCELLATION, FaultHandlerCode.ABANDON_TRANSACTION, FaultHandlerCode.IGNORE_ERROR,
+                 FaultHandlerCode.ABANDON_TRANSACTION][osel - 1])]
+        req = PutRequest(b.eid, Path(src_name), Path(f"dst/h{i}.bin"), mode, closure, msgs_to_user=hm, fault_handler_overrides=ovr)
         rec = w.call(a, "src", "put", arg=req)
         if rec.ret is not True:
             hist_log.append("put-refused")
@@ -230,6 +251,11 @@ def run_history(w, t, hist_log):
         if by_state:
             lk.rate = (1, 3)
             lk.enabled = {"drop"}
+        # a sender-side cancel may be timed to hit the moment between serving a NAK and the next call
+        cancel_retx = kind == "cancel_src" and mode == ACK and t.choose(2, "cancel while retransmitting") == 1
+        if cancel_retx:
+            lk.rate = (1, 3)
+            lk.enabled = {"drop"}
         calls0 = w.calls_n
         acted = False
         start_t = w.clock.t
@@ -239,6 +265,8 @@ def run_history(w, t, hist_log):
             if by_state:
                 trigger = b.handlers["dst"].step.name in ("WAITING_FOR_MISSING_DATA", "RECV_FILE_DATA_WITH_CHECK_LIMIT_HANDLING") \
                     and not b.handlers["dst"].num_packets_ready
+            if cancel_retx:
+                trigger = a.handlers["src"].step.name == "RETRANSMITTING" and not a.handlers["src"].num_packets_ready
             if not acted and trigger:
                 acted = True
                 if kind in ("cancel_src", "cancel_dst"):
@@ -314,6 +342,8 @@ def run_history(w, t, hist_log):
         w.heap.clear()
         w.pending = 0
         w.polls_stopped = True
+    if restore_src:
+        w.vfs_a.h_put(w.src_path, w.src_bytes)  # written by "another program", not through the filestore interface
     return unfinished
 
 
